@@ -155,6 +155,13 @@ def check_from_ensemble(ctx):
     if not recognised:
         # a different derivation: positively wrong if it divides by the total number of members
         bad = "attr:shape" in val.key() and ("sum(" in val.key() or "count" in val.key()) and "nanmean" not in val.key()
+        # a plain mean over the member axis of (member <= t): every missing member compares False and stays in the denominator
+        for a in q.atoms(val, "mean"):
+            inner = a.args[0] if a.args and isinstance(a.args[0], Rat) else None
+            cm = [b for b in q.atoms(inner) if b.func in ("cmp_le", "cmp_lt")] if inner is not None else []
+            remasked = inner is not None and any(st_.args[1].equals(form.apply("isnan", [pre])) for st_ in q.atoms(inner, "setitem") if isinstance(st_.args[1], Rat))
+            if cm and not remasked:
+                bad = True
         if bad:
             ctx.ob("C08.2", site, False, "P(X<=t) from the ensemble is the fraction of VALID members <= threshold", loc=loc,
                    msg="the ensemble probability divides the count of members <= t by the total ensemble size: missing members are counted as "
